@@ -207,6 +207,16 @@ def server_case(part: Part, stream: bytes, label):
                        f"connection left open with no handler task and {len(r['responses'])} response(s) for {stream[:80]!r}", case)
     if r["malformed"]:
         part.violation("C10:server:malformed-response", f"server output is not a sequence of well-formed responses: {r['malformed']}", case)
+    # an HTTP protocol error in the bytes received (before any EOF) is answered with a 4xx and the connection closed
+    o, _d = httpdrv.parse(stream)
+    perr = o["error"][1] if o["error"] is not None and o["error"][0] == "http" else next((m[4] for m in o["msgs"] if m[4]), None)
+    if perr and not r["escaped"]:
+        sts = [x[0] for x in r["responses"] if not 100 <= x[0] < 200]
+        if not sts or not 400 <= sts[-1] < 500:
+            part.violation(f"C10:server:protocol-error-not-4xx:{perr}:{sts[-1] if sts else 'no-response'}",
+                           f"parser reports {perr} for {stream[:80]!r} but the server answered {sts} (closed={r['closed']})", case)
+        elif not r["closed"]:
+            part.violation("C10:server:protocol-error-not-closed", f"4xx sent for {perr} but the connection stays open: {stream[:80]!r}", case)
     return r
 
 
@@ -272,7 +282,22 @@ def _job(job):
                 run_stream(part, s, cuts, "request", cfgname, {}, label, expect)
             if len(part.samples) < 2:
                 part.sample({"limit_case": label[0], "limits": label[1:], "expect": expect, "stream": s})
+    elif kind == "unterminated":
+        _k, cfgname = job
+        mls, mfs, _mh = _limits(CONFIGS[cfgname])
+        if mls <= 1000:
+            for label, s, step in hc.unterminated_streams(mls, mfs):
+                for cuts in (tuple(range(step, len(s), step)), tuple(range(1, len(s))), ()):
+                    run_stream(part, s, cuts, "request" if not label.startswith("resp-") else "response", cfgname,
+                               {"read_until_eof": True} if label.startswith("resp-") else {}, (label, mls, mfs), "reject")
     elif kind == "targets":
+        for label, s in hc.hostile_number_streams():
+            for cuts in [(), (len(s) // 2,)]:
+                run_stream(part, s, cuts, "request" if not label.startswith("resp-") else "response", "default", {}, label)
+            if not label.startswith("resp-"):
+                server_case(part, s, label)
+            else:
+                client_case(part, s, {}, label)
         for label, s in hc.hostile_target_streams():
             for cuts in [()] + [(i,) for i in range(1, len(s))]:
                 run_stream(part, s, cuts, "request", "default", {}, label)
@@ -320,7 +345,7 @@ def run(ctx):
     jobs = [("work",), ("targets",)]
     for c in cfgs:
         jobs += [("corpus", i, c) for i in range(nb)]
-        jobs += [("limits", c)]
+        jobs += [("limits", c), ("unterminated", c)]
         jobs += [("responses", r, c) for r in range(len(hc.response_streams()))]
     jobs += [("bytes", i) for i in range(nb)]
     jobs += [("server", i) for i in range(nb)]
